@@ -1,16 +1,16 @@
 #!/bin/bash
 # usage: confirm_seed.sh <Cxx>   -- re-confirm an agent's seeded change inside its scratch worktree
-P=$1; W=/tmp/seed_$P; T=/tmp/seed_${P}_target; lc=$(echo $P | tr A-Z a-z)
+P=$1; R=${2:-}; W=/tmp/seed${R}_$P; T=/tmp/seed${R}_${P}_target; lc=$(echo $P | tr A-Z a-z)
 cd $W || exit 2
 export CARGO_NET_OFFLINE=true CARGO_TARGET_DIR=$T
 git stash list | head -2
 echo "--- suite with change (existing targets)"
 cargo test --workspace --no-fail-fast --offline 2>&1 | grep -E "^test result|Running|FAILED" | grep -B1 -E "FAILED|failed;" | grep -v "^--" | head -20
 echo "--- demo with change (expect FAIL)"
-cargo test --offline -p harness --test seed_$lc 2>&1 | grep -E "^test result|panicked" | head -5
-git diff -- src proto > /tmp/seed_$P.chk.diff
+cargo test --offline -p harness --test seed${R}_$lc 2>&1 | grep -E "^test result|panicked" | head -5
+git diff -- src proto > /tmp/seed${R}_$P.chk.diff
 git checkout -- src proto
 echo "--- demo without change (expect ok)"
-cargo test --offline -p harness --test seed_$lc 2>&1 | grep -E "^test result|panicked" | head -5
-git apply /tmp/seed_$P.chk.diff
+cargo test --offline -p harness --test seed${R}_$lc 2>&1 | grep -E "^test result|panicked" | head -5
+git apply /tmp/seed${R}_$P.chk.diff
 cmp <(git diff -- src proto) OUT/patch.diff && echo "patch.diff matches worktree"
